@@ -12,6 +12,11 @@
 //!                         verdict: decode(encode src) = src     (model: the Gallina encoder, order 0)
 //!   r4d   order src enc-> hex(decode enc); enc is the REAL encoder's output computed at generation time;
 //!                         the model runs the INDEPENDENT (specification) decoder on the same bytes
+//!   nfe   flags src    -> hex(real rANS Nx16 stream) for every STRIPE-free flag byte whose emitted stream is CAT
+//!                         or ORDER-0 entropy coded (N = 4 | 32), "order1" when the order-1 coder was used;
+//!                         model: Nx16Full.nx_encode_e (transforms + order-0 coder); verdict: self round trip
+//!   nfd   flags usize stream expect -> hex(decode stream) | Err | Panic; model: Nx16Full.nx_decode_e (noodles'
+//!                         decoder incl. the order-0 entropy decoder and entropy-coded RLE meta-data)
 //! Implementation-only oracles (obs "-"):
 //!   nx16 flags src | aac flags src | fqz lens src | names src | gz level src | bz2 level src | xz level src
 //!   big codec param shape len seed     (input built inside `run`; > 1 MiB inputs and the witnesses of
@@ -402,6 +407,34 @@ fn nxe_case(flags: u8, src: &[u8]) -> Obs {
         long_obs(&enc)
     } else {
         "entropy".to_string()
+    };
+    match guarded(AssertUnwindSafe(|| v::rans_nx16_decode(&enc, n))) {
+        Outcome::Done(Ok(d)) if d == src => Obs::ok(obs, !src.is_empty()),
+        Outcome::Done(Ok(d)) => Obs::fail(obs, &format!("{what}-decode-mismatch"), format!("len={n} decoded_len={}", d.len())),
+        Outcome::Done(Err(e)) => Obs::fail(obs, &format!("{what}-decode-error"), format!("Err:{} len={n}", errkind(&e))),
+        Outcome::Panicked(m) => Obs::fail(obs, &format!("{what}-decode-panic"), format!("{m} len={n}")),
+    }
+}
+
+/// nfe: the real encoder's whole stream unless the order-1 coder (or STRIPE) was used
+fn nfe_case(flags: u8, src: &[u8]) -> Obs {
+    let f = rans_nx16::Flags::from(flags);
+    let n = src.len();
+    let what = format!("nx16-f{flags:02x}");
+    if flags & 0x29 == 0 && flags & 0xc0 == 0 && old_correction_zeroes_max(&o0_counts(src), 4096) && !normaliser_repaired() {
+        return Obs::fail("Diverges", "nx16-normalize-zero-max", "not executed: this encoder lacks the normalisation repair (probe input panicked) and would never terminate");
+    }
+    let enc = match guarded(AssertUnwindSafe(|| v::rans_nx16_encode(f, src))) {
+        Outcome::Done(Ok(e)) => e,
+        Outcome::Done(Err(e)) => return Obs::fail("Err", &format!("{what}-encode-error"), format!("Err:{} len={n}", errkind(&e))),
+        Outcome::Panicked(m) => return Obs::fail("Panic", &format!("{what}-encode-panic"), format!("{m} len={n}")),
+    };
+    let obs = if flags & 0x08 != 0 {
+        "stripe".to_string()
+    } else if enc.first().is_some_and(|b| b & 0x20 != 0 || b & 0x01 == 0) {
+        long_obs(&enc)
+    } else {
+        "order1".to_string()
     };
     match guarded(AssertUnwindSafe(|| v::rans_nx16_decode(&enc, n))) {
         Outcome::Done(Ok(d)) if d == src => Obs::ok(obs, !src.is_empty()),
@@ -908,12 +941,14 @@ fn generate(rng: &mut Rng, tier: &str, w: &mut CaseWriter) {
     let per_flag = if thorough { 10 } else { 2 };
     let fixed_small: Vec<Vec<u8>> = vec![vec![], vec![1], vec![1, 2], vec![3, 3, 3], vec![1, 2, 3, 4], (0..33u8).collect()];
     for (fi, &f) in nx_flags.iter().enumerate() {
+        // STRIPE-free flag bytes are compared with the model (nfe), the others only round trip
+        let kind = if f & 0x08 == 0 { "nfe" } else { "nx16" };
         let s = &fixed_small[fi % fixed_small.len()];
-        w.push("nx16", vec![f.to_string(), hex(s)]);
+        w.push(kind, vec![f.to_string(), hex(s)]);
         for _ in 0..per_flag {
             let shape = *rng.pick(SHAPES);
             let len = gen_len(rng, if thorough { 6000 } else { 1500 });
-            w.push("nx16", vec![f.to_string(), hex(&shaped(rng, shape, len))]);
+            w.push(kind, vec![f.to_string(), hex(&shaped(rng, shape, len))]);
         }
     }
     for (fi, &f) in aac_flags.iter().enumerate() {
@@ -969,6 +1004,147 @@ fn generate(rng: &mut Rng, tier: &str, w: &mut CaseWriter) {
         w.push("nxe", vec!["8".into(), hex(b"noodles")]);
     }
 
+    // ---- rANS Nx16 whole streams incl. the ORDER-0 entropy coder (modelled): nfe / nfd
+    {
+        let mut inputs = nxx_inputs(rng, false);
+        // alphabets that exercise write_alphabet / read_alphabet: symbol 0 and 1, runs of adjacent
+        // symbols ending before / at symbol 255, isolated symbols, every symbol
+        let alpha_sets: Vec<Vec<u8>> = vec![
+            vec![0], vec![0, 1], vec![0, 1, 2, 3], vec![1, 2], vec![0, 2, 4], vec![254, 255], vec![253, 254, 255],
+            (250..=255u8).collect(), (10..=20u8).collect(), vec![10, 11, 13, 14, 15, 17, 200, 201, 255],
+            (0..=255u8).collect(), (1..=255u8).collect(), (0..=254u8).collect(), vec![0, 255], vec![7, 9, 10, 11, 12, 13, 30],
+        ];
+        for a in &alpha_sets {
+            let n = rng.range(a.len() as u64, 40 + 3 * a.len() as u64) as usize;
+            let mut v: Vec<u8> = a.clone();
+            while v.len() < n {
+                v.push(*rng.pick(a));
+            }
+            inputs.push(v);
+        }
+        for shape in SHAPES {
+            for _ in 0..(if thorough { 6 } else { 2 }) {
+                let len = gen_len(rng, if thorough { 5000 } else { 1200 });
+                inputs.push(shaped(rng, shape, len));
+            }
+        }
+        // the witnesses of the repaired normalisation (scaled sum above / below 4096)
+        inputs.push(shaped(rng, "zmaxnx16", 0));
+        inputs.push(shaped(rng, "nx16under", 0));
+        let flagsets = all_subsets(&[0x01, 0x04, 0x10, 0x20, 0x40, 0x80]);
+        for (fi, &f) in flagsets.iter().enumerate() {
+            for (ii, src) in inputs.iter().enumerate() {
+                let small = src.len() <= 600;
+                // requested ORDER-0 without CAT: most inputs; the others: a rotating sixth
+                let keep = if f & 0x21 == 0 { thorough || small || (ii + fi) % 3 == 0 } else { (ii + fi) % 6 == 0 && (small || thorough) };
+                if !keep {
+                    continue;
+                }
+                w.push("nfe", vec![f.to_string(), hex(src)]);
+                let Outcome::Done(Ok(enc)) = guarded(AssertUnwindSafe(|| v::rans_nx16_encode(rans_nx16::Flags::from(f), src))) else { continue };
+                let modelled = enc.first().is_some_and(|b| b & 0x20 != 0 || b & 0x01 == 0);
+                if !modelled || !small {
+                    continue;
+                }
+                let n = src.len().to_string();
+                w.push("nfd", vec![f.to_string(), n.clone(), hex(&enc), hex(src)]);
+                if enc.len() > 2 && (ii + fi) % 2 == 0 {
+                    let cut = rng.range(1, enc.len() as u64 - 1) as usize;
+                    w.push("nfd", vec![f.to_string(), n.clone(), hex(&enc[..cut]), "-".into()]);
+                }
+                if (ii + fi) % 4 == 0 {
+                    let mut more = enc.clone();
+                    let extra = rng.range(1, 4) as usize;
+                    more.extend(rng.bytes(extra));
+                    w.push("nfd", vec![f.to_string(), n.clone(), hex(&more), "-".into()]);
+                }
+                // corrupted streams: never the flag byte or a size field (the declared sizes stay
+                // small); without PACK/RLE everything after the size is alphabet / frequencies /
+                // states / payload, with them only the tail is touched
+                let start = if f & 0xc0 == 0 { 1 + if f & 0x10 == 0 { u7_size(src.len() as u32) } else { 0 } } else { enc.len().saturating_sub(10).max(enc.len() / 2 + 1) };
+                if start < enc.len() {
+                    for _ in 0..(if thorough { 3 } else { 1 }) {
+                        let mut bad = enc.clone();
+                        let pos = rng.range(start as u64, enc.len() as u64 - 1) as usize;
+                        bad[pos] = match rng.below(4) {
+                            0 => 0,
+                            1 => 0xff,
+                            2 => bad[pos] ^ (1 << rng.below(8)),
+                            _ => rng.below(256) as u8,
+                        };
+                        w.push("nfd", vec![f.to_string(), n.clone(), hex(&bad), "-".into()]);
+                    }
+                }
+            }
+        }
+        // hand-made order-0 streams for the decoder's table normalisation: totals 1, 2048 (scaled
+        // up), 3 and 4097 (rejected), 0 (accepted), a run reaching past symbol 255, no terminator
+        let st4: Vec<u8> = [0x8000u32, 0x8001, 0x8fff, 0x12345].iter().flat_map(|x| x.to_le_bytes()).collect();
+        for (tbl, n) in [
+            (vec![0x41u8, 0x00, 0x01], 5usize),
+            (vec![0x41, 0x43, 0x00, 0x88, 0x00, 0x88, 0x00], 9),
+            (vec![0x41, 0x00, 0x03], 5),
+            (vec![0x41, 0x42, 0x00, 0x00, 0xa0, 0x00, 0x01], 5),
+            (vec![0x41, 0x00, 0x00], 6),
+            (vec![0xfe, 0xff, 0x01, 0x00, 0x01, 0x01], 3),
+            (vec![0xfd, 0xfe, 0x01, 0x00, 0x90, 0x00, 0x88, 0x00, 0x88, 0x00], 7),
+            (vec![0x41, 0x42, 0x05], 3),
+            (vec![0x00, 0x01, 0x02, 0x00, 0x90, 0x00, 0x84, 0x00, 0x84, 0x00, 0x88, 0x00], 11),
+        ] {
+            let mut sbytes = vec![0x00u8, n as u8];
+            sbytes.extend(&tbl);
+            sbytes.extend(&st4);
+            sbytes.extend([0x34, 0x12, 0xff, 0xee, 0x01, 0x00, 0x00, 0x80]);
+            w.push("nfd", vec!["0".into(), n.to_string(), hex(&sbytes), "-".into()]);
+        }
+        // entropy-compressed RLE meta-data (accepted by the decoder, never written by the encoder):
+        // the meta-data of a real CAT|RLE stream replaced by its own order-0 encoding
+        for f in [0x60u8, 0x64, 0x70, 0x40, 0x44] {
+            for _ in 0..(if thorough { 6 } else { 2 }) {
+                let nsym = rng.range(2, 40) as usize;
+                let syms: Vec<u8> = (0..nsym).map(|i| (i * 5) as u8).collect();
+                let mut src = Vec::new();
+                let total = rng.range(200, 900) as usize;
+                while src.len() < total {
+                    let sy = *rng.pick(&syms);
+                    let r = 1 + rng.below(12) as usize;
+                    src.extend(std::iter::repeat(sy).take(r));
+                }
+                let Outcome::Done(Ok(enc)) = guarded(AssertUnwindSafe(|| v::rans_nx16_encode(rans_nx16::Flags::from(f), &src))) else { continue };
+                if enc[0] & 0x40 == 0 {
+                    continue;
+                }
+                let mut r = &enc[1..];
+                let mut head = vec![enc[0]];
+                if f & 0x10 == 0 {
+                    let Ok(sz) = v::read_uint7(&mut r) else { continue };
+                    head.extend(w_u7(sz));
+                }
+                let (Ok(mh), Ok(lits)) = (v::read_uint7(&mut r), v::read_uint7(&mut r)) else { continue };
+                let mlen = (mh >> 1) as usize;
+                if mh & 1 == 0 || r.len() < mlen {
+                    continue;
+                }
+                let (meta, rest) = r.split_at(mlen);
+                let cf = 0x10 | (f & 0x04);
+                let Outcome::Done(Ok(cm)) = guarded(AssertUnwindSafe(|| v::rans_nx16_encode(rans_nx16::Flags::from(cf), meta))) else { continue };
+                if cm[0] & 0x21 != 0 {
+                    continue;
+                }
+                let body = &cm[1..];
+                let mut st = head.clone();
+                st.extend(w_u7((mlen as u32) << 1));
+                st.extend(w_u7(lits));
+                st.extend(w_u7(body.len() as u32));
+                st.extend(body);
+                st.extend(rest);
+                w.push("nfd", vec![f.to_string(), src.len().to_string(), hex(&st), hex(&src)]);
+                let cut = rng.range(head.len() as u64 + 3, st.len() as u64 - 1) as usize;
+                w.push("nfd", vec![f.to_string(), src.len().to_string(), hex(&st[..cut]), "-".into()]);
+            }
+        }
+    }
+
     // ---- fqzcomp
     for _ in 0..(25 * scale) {
         let shape = *rng.pick(&["qual", "qual", "skewed", "single", "two", "uniform", "runs"]);
@@ -1006,9 +1182,9 @@ fn generate(rng: &mut Rng, tier: &str, w: &mut CaseWriter) {
         w.push("big", vec!["r4".into(), "0".into(), shape.into(), "0".into(), "0".into()]);
     }
     for shape in ["zmaxnx16", "nx16under"] {
-        w.push("big", vec!["nx16".into(), "0".into(), shape.into(), "0".into(), "0".into()]);
+        w.push("big", vec!["nfe".into(), "0".into(), shape.into(), "0".into(), "0".into()]);
     }
-    w.push("big", vec!["nx16".into(), "0".into(), "f8".into(), "0".into(), "0".into()]);
+    w.push("big", vec!["nfe".into(), "0".into(), "f8".into(), "0".into(), "0".into()]);
     w.push("fqz", vec!["5,0,5".into(), hex(&[30u8; 10])]);
     w.push("fqz", vec!["4,4,0".into(), hex(&[30u8; 8])]);
     // ---- big inputs, built inside `run`
@@ -1035,7 +1211,8 @@ fn run(c: &Case) -> Obs {
         "nx16" => nx16_case(c.u(0) as u8, &c.b(1)),
         "aac" => aac_case(c.u(0) as u8, &c.b(1)),
         "nxe" => nxe_case(c.u(0) as u8, &c.b(1)),
-        "nxd" => nxd_case(c),
+        "nxd" | "nfd" => nxd_case(c),
+        "nfe" => nfe_case(c.u(0) as u8, &c.b(1)),
         "fqz" => {
             let lens: Vec<usize> = if c.args[0] == "_" { vec![] } else { c.args[0].split(',').map(|x| x.parse().unwrap()).collect() };
             fqz_case(&lens, &c.b(1))
@@ -1049,6 +1226,7 @@ fn run(c: &Case) -> Obs {
             match c.args[0].as_str() {
                 "r4" => r4_case(p, &src, false),
                 "nx16" => nx16_case(p as u8, &src),
+                "nfe" => nfe_case(p as u8, &src),
                 "aac" => aac_case(p as u8, &src),
                 "fqz" => {
                     let mut lens = vec![p as usize; src.len() / p as usize];
